@@ -173,7 +173,11 @@ func (s *genState) genProblem(req M) {
 		maxA = 7
 	}
 	na := g.Int(minA, maxA)
-	cp := g.Perm(5)
+	cpool := 5
+	if maxC > cpool {
+		cpool = maxC
+	}
+	cp := g.Perm(cpool)
 	pool := 9
 	if maxA+2 > pool {
 		pool = maxA + 2
